@@ -324,11 +324,75 @@ def r11f(F):
 	out.append(Result('11.f', okc and bool(cs), ('ok:' if okc and cs else 'shape:') + 'confirmations-accessor', 'get_funding_tx_confirmations = height.checked_sub(conf_height) + 1 (0 when unconfirmed)', 2, where=F.where(gf.name)))
 	return out
 
+def r11g(F):
+	"""effects are attached to the height of the transaction that caused them, and retraction does not depend on channel state"""
+	out = []
+	# (i) a preimage learnt while the commitment's confirmation is still maturing: the claim carries the commitment's confirmation
+	#     height (not None / the current tip), so that a reorg above that block does not drop it
+	fn = MON + 'provide_payment_preimage'
+	hit = None
+	for n in F.family(fn):
+		if n == F.fn(fn):
+			continue
+		fu = F.func(n)
+		vs = enum_variants(F, MONP + 'OnchainEvent')
+		sw = [x for x in variant_switch_edges(fu, lambda pl: True, vs) if 'FundingSpendConfirmation' in x[1]]
+		if sw:
+			hit = (fu, sw[0])
+	if hit is None:
+		out.append(Result('11.g', False, 'anchor:pending-spend-lookup', 'provide_payment_preimage no longer looks for a pending FundingSpendConfirmation', where=F.where(F.fn(fn))))
+	else:
+		fu, (sb, m, other) = hit
+		ex = Expr(fu)
+		arm = fu.reach([m['FundingSpendConfirmation']], removed_blocks={sb, other} | {t for v, t in m.items() if v != 'FundingSpendConfirmation'})
+		ok = False
+		seen = []
+		for bi, si, s in fu.stmts():
+			if bi in arm and s[1] == [0] and s[2][0] == 'agg' and s[2][3] == 'Some':
+				e = ex.of_rvalue(s[2])
+				t = e[3][0]
+				if t[0] == 'agg' and len(t[3]) == 2:
+					h = t[3][1]
+					seen.append(expr_str(h)[:60])
+					ok = h[0] == 'agg' and h[2] == 'Some' and 'height' in expr_leaves(h)['fields']
+		out.append(Result('11.g', ok, ('ok:' if ok else 'height:') + 'pending-spend-height', 'for a funding spend still awaiting its threshold, provide_payment_preimage uses (txid, Some(event.height)) - the claim is tied to the block of the commitment transaction (found %s)' % seen, len(seen), where=F.where(fu.name)))
+	# and that height is what the claim builders receive
+	pf = F.func(fn)
+	exf = Expr(pf)
+	okh = True
+	cps = sites_call(pf, [MON + 'get_counterparty_output_claims_for_preimage'])
+	for b in cps:
+		a = exf.of_operand(pf.blocks[b]['t'][2]['args'][-1])
+		if 'confirmed_spend' not in leaf_key(a) and 'height' not in leaf_key(a) and '.1' not in leaf_key(a):
+			okh = False
+	out.append(Result('11.g', okh and bool(cps), ('ok:' if okh and cps else 'height:') + 'height-reaches-claim-builder', 'the confirmation height of the spend is passed to get_counterparty_output_claims_for_preimage (%d call(s))' % len(cps), len(cps), where=F.where(pf.name)))
+	# (ii) manager side: when the funding has no confirmations left, the confirmation bookkeeping is cleared whatever the channel state
+	db = F.func(FC + 'do_best_block_updated')
+	ws = sorted({b for b, s in sites_field_write(db, 'funding_tx_confirmation_height')})
+	exd = Expr(db)
+	zero = []
+	for b in ws:
+		for s in db.blocks[b]['s']:
+			fl = place_fields(s[1])
+			if fl and fl[-1] == 'funding_tx_confirmation_height' and s[2][0] == 'use' and s[2][1][0] == 'k' and s[2][1][1].get('v') == 0:
+				zero.append(b)
+	if not zero:
+		out.append(Result('11.g', False, 'anchor:confirmation-height-reset', 'do_best_block_updated no longer resets funding_tx_confirmation_height to 0', where=F.where(db.name)))
+	else:
+		first = min(zero, key=lambda b: db.line_of(b))
+		conds = control_conds(db, first)
+		bad = [k for sb, k, ln in conds if re.search(r'channel_state|is_our_channel_ready|funding_tx_confirmed_in|is_some\(', k)]
+		need = [k for sb, k, ln in conds if 'get_funding_tx_confirmations' in k or 'funding_tx_confirmations' in k]
+		ok = not bad and bool(need)
+		out.append(Result('11.g', ok, ('ok:' if ok else 'state-dependent:') + 'reset-independent-of-channel-state', 'the funding confirmation height / SCID / block hash are cleared whenever the funding has 0 confirmations, independently of whether channel_ready was already sent (conditions: %s)%s' % ([k[:50] for sb, k, ln in conds], '' if not bad else '; depends on channel state: %s - a channel still waiting for its depth keeps a stale height after the funding is reorged out and later sends channel_ready for a transaction that is not in the chain' % [b[:60] for b in bad]), len(conds) + 1, where=F.where(db.name, db.line_of(first))))
+	return out
+
 RULES = [
 	('11.a', 'Listen and Confirm entry points of monitor, chain monitor and manager funnel into the same internal routines', r11a),
 	('11.b', 'irrevocable conclusions only inside the loop over events past the confirmation threshold', r11b),
 	('11.c', 'threshold = height + ANTI_REORG_DELAY - 1 (CSV maxima), reached iff best height >= threshold; monitor and claim handler agree', r11c),
 	('11.d', 'retraction: exactly the events above the new tip are dropped; claim handler uses the complementary boundary and the same height', r11d),
 	('11.e', 'idempotent re-delivery: already-seen transactions are skipped, the best block only advances', r11e),
+	('11.g', 'claims carry the height of the confirming block; funding-reorg bookkeeping is cleared independently of channel state', r11g),
 	('11.f', 'manager side: channel_ready needs height - conf_height + 1 >= minimum_depth; funding reorg re-evaluated', r11f),
 ]
